@@ -464,8 +464,17 @@ func gen(r *hx.Rand, tier string, i int) string {
 		if r.Bool() {
 			return fLine(defMagic, r.Bytes(r.Intn(60)))
 		}
-		// random bytes behind a valid magic
-		return fLine(defMagic, cat(le(4, defMagic), r.Bytes(r.Intn(60))))
+		// random bytes behind a valid magic; the length field is mostly small or just above the cap (a fully random one
+		// announces gigabytes: kept rare, see the note at the header mutations)
+		s := cat(le(4, defMagic), r.Bytes(r.Intn(60)))
+		if len(s) >= 20 && !r.Chance(3) {
+			l := uint32(r.Intn(80))
+			if r.Chance(15) {
+				l = pc.MAX_PAYLOAD_LEN - 2 + uint32(r.Intn(5))
+			}
+			copy(s[16:20], le(4, uint64(l)))
+		}
+		return fLine(defMagic, s)
 	}
 }
 
